@@ -5,6 +5,13 @@ import json, glob, os, re
 HEAD = open('/verif/seeded/SUMMARY.head.md').read() if os.path.exists('/verif/seeded/SUMMARY.head.md') else ''
 rows = []
 det = 0
+# last complete re-run of everything against the current harness
+regress = {}
+if os.path.exists('/verif/seeded/REGRESS.txt'):
+    for l in open('/verif/seeded/REGRESS.txt'):
+        f = l.split(None, 3)
+        if len(f) >= 3 and f[2] == 'DETECTED':
+            regress[f[0]] = f[3].strip() if len(f) > 3 else '' 
 missed_first = []
 for d in sorted(glob.glob('/verif/seeded/*/')):
     f = os.path.join(d, 'meta.json')
@@ -17,6 +24,10 @@ for d in sorted(glob.glob('/verif/seeded/*/')):
         if l:
             sig = l[0].split(': ', 1)[-1]
             break
+    if not m.get('detected_by') and m['name'] in regress:
+        # reverted fixes are only run by tools_seed_regress.sh
+        m['detected_by'] = [m['property']]
+        sig = regress[m['name']].split(': ', 1)[-1]
     if m['property'] in m.get('detected_by', []):
         det += 1
     rows.append('| %s | %s | %s | %s | %s | %s | %s | `%s` |' % (
